@@ -64,6 +64,11 @@ Proof.
 Qed.
 Print Assumptions C08_wire_accept.
 
+(* an object path in a message body (params::Base::ObjectPath) is written iff it is valid, unchanged *)
+Corollary C08_body_path : forall s w, marshal_objectpath s = Ok w <-> (ValidPath s /\ w = s).
+Proof. exact marshal_objectpath_spec. Qed.
+Print Assumptions C08_body_path.
+
 (* names in the specification's languages are ASCII without NUL: on the wire they take one byte per
    character and cannot be cut short by an embedded terminator *)
 Theorem C08_ascii : forall s,
